@@ -4,5 +4,8 @@ Pure standard library.  Nothing in here imports or runs quantarhei; the only
 third-party import anywhere is numpy/scipy inside ``qv.apiexist`` (attribute
 existence against the interpreter that runs the test suite).
 """
-REPO = "/repo"
+import os as _os
+# QV_REPO is only used to evaluate seeded changes on a scratch worktree; the registered
+# commands never set it and always analyse /repo's working tree.
+REPO = _os.environ.get("QV_REPO", "/repo")
 PKG = "quantarhei"
